@@ -187,7 +187,7 @@ def main():
         print("verdict:", v or "ok")
         sys.exit(1 if v else 0)
 
-    deadline = c.t0 + c.budget(120, 1500)
+    deadline = c.t0 + c.budget(300, 1800)
     total, transitions = 0, 0
     completed = []
     outcomes = {}
